@@ -1523,6 +1523,13 @@ class Interp:
         raise Unsupported(f"call of external {name}", node)
 
     def numpy(self, fn, args, kwargs, node):
+        if fn in ("ndim", "isscalar") and args and isinstance(
+                args[0], (bool, int, float, Fraction, str, list, tuple)):
+            v, d = args[0], 0
+            while isinstance(v, (list, tuple)):
+                d += 1
+                v = v[0] if v else None
+            return d if fn == "ndim" else d == 0
         if fn in ("array", "asarray", "hstack", "stack") and \
                 fn in ("array", "asarray"):
             return to_arr(args[0])
